@@ -312,7 +312,47 @@ func checkReset(c Case) (f *evid.Failure) {
 		in := append([]byte{}, doc...)
 		reused.Reset(in)
 		other.Next()
-		got, gerr := stream(reused, len(doc), stop)
+		// two more tokenizers, created now, advanced in lock step with the reused one: tokenizers that are
+		// alive at the same time never share a pooled stack, whatever the history of the pool
+		sideDoc := []byte(`{"p":[[1,{"q":[2,3,{"r":null}]}],[]],"s":{"t":[true]}}`)
+		side1, side2 := segjson.NewTokenizer(sideDoc), segjson.NewTokenizer(sideDoc)
+		var got, s1, s2 []obsTok
+		for calls := 0; ; calls++ {
+			more := false
+			if (stop < 0 || calls < stop) && calls <= len(doc)+2 && reused.Next() {
+				got = append(got, snapshot(reused))
+				more = true
+			}
+			if side1.Next() {
+				s1 = append(s1, snapshot(side1))
+				more = true
+			}
+			if calls%2 == 0 && side2.Next() {
+				s2 = append(s2, snapshot(side2))
+				more = true
+			}
+			if !more && calls%2 == 0 {
+				break
+			}
+		}
+		for side2.Next() {
+			s2 = append(s2, snapshot(side2))
+		}
+		gerr := ""
+		if reused.Err != nil {
+			gerr = "error"
+		}
+		wantSide, _ := stream(segjson.NewTokenizer(sideDoc), len(sideDoc), -1)
+		for si, sgot := range [][]obsTok{s1, s2} {
+			if len(sgot) != len(wantSide) {
+				return fail("tokenizers alive at the same time do not disturb each other", fmt.Sprintf("input %d: side tokenizer %d yielded %d tokens", i, si+1, len(sgot)), fmt.Sprintf("%d tokens", len(wantSide)), "shared-state")
+			}
+			for k := range sgot {
+				if sgot[k] != wantSide[k] {
+					return fail("tokenizers alive at the same time do not disturb each other", fmt.Sprintf("input %d: side tokenizer %d token %d: %+v", i, si+1, k, sgot[k]), fmt.Sprintf("%+v", wantSide[k]), "shared-state")
+				}
+			}
+		}
 		other.Next()
 		fresh := segjson.NewTokenizer(append([]byte{}, doc...))
 		want, werr := stream(fresh, len(doc), stop)
